@@ -463,6 +463,36 @@ def fixed_split_answer_scenarios():
     return out
 
 
+def fixed_late_duplicate_scenarios():
+    """Fixed corpus (no random choice): two requests on one server object; the first is answered at once; while the second waits,
+    a late DUPLICATE of the first one's answer arrives in front of the second one's own answer (same read). The second request
+    must behave as on a fresh server: the duplicate is not in its filter, its own answer is returned after one send."""
+    from . import reflect as R
+    import random
+    kt = R.key_tables()
+    rng = random.Random(0)
+    allr = all_requests(rng, R.message_table(), kt)
+    polls, others = [], []
+    for r in allr:
+        if r.op == 'poll' and r.label not in [x.label for x in polls]:
+            polls.append(r)
+        if r.op in ('set', 'mga') and r.label not in [x.label for x in others]:
+            others.append(r)
+    out = []
+    firsts = [r for r in polls if r.label in ('UbxMonVerPoll', 'UbxCfgRatePoll', 'UbxNavStatusPoll', 'UbxCfgNav5Poll')][:4] or polls[:3]
+    for a in firsts:
+        fa, _ = good_answer(rng, a, kt, 'ack')
+        for b in others[:3] + [p_ for p_ in polls if p_.cid != a.cid][:2]:
+            fb, _ = good_answer(rng, b, kt, 'ack')
+            for name, second in (('duplicate-then-answer', fa[0] + b''.join(fb)), ('two-duplicates-then-answer', fa[0] + fa[0] + b''.join(fb)),
+                                 ('answer-then-duplicate', b''.join(fb) + fa[0])):
+                sc = {'retries': 2, 'delay': 400, 'reqs': [a, b],
+                      'plan': [('good', 1, False), ('good', 1, False)], 'plans': [[('good', 1, False)], [('good', 1, False)]],
+                      'script': {'pending': [], 'attempts': [(True, [(b''.join(fa), 1)]), (True, [(second, 1)]), (True, []), (True, [])], 'idle': 13}}
+                out.append((f'{name}/{a.label}+{b.label}', sc))
+    return out
+
+
 def model_cmd(sc, sk):
     head = 'reqs'
     if sc.get('backend') == 'gpsd':
